@@ -785,7 +785,14 @@ class NodeFor:
                         if value.isList():
                             vals = value.value
                         elif value.isSet():
-                            vals = value.value.sortedValues()
+                            vals = value.getSortedItems()
+                        else:
+                            raise CklRuntimeError(
+                                ValueString("ERROR"),
+                                "Destructuring in for loop expects list "
+                                f"or set but got {value.type()}",
+                                self.pos,
+                            )
                         for i in range(len(self.identifiers)):
                             environment.put(self.identifiers[i], vals[i])
 
@@ -821,6 +828,13 @@ class NodeFor:
                         vals = value.value
                     elif value.isSet():
                         vals = value.getSortedItems()
+                    else:
+                        raise CklRuntimeError(
+                            ValueString("ERROR"),
+                            "Destructuring in for loop expects list "
+                            f"or set but got {value.type()}",
+                            self.pos,
+                        )
                     for i in range(len(self.identifiers)):
                         environment.put(self.identifiers[i], vals[i])
                 result = self.block.evaluate(environment)
@@ -851,6 +865,13 @@ class NodeFor:
                         vals = value.value
                     elif value.isSet():
                         vals = value.getSortedItems()
+                    else:
+                        raise CklRuntimeError(
+                            ValueString("ERROR"),
+                            "Destructuring in for loop expects list "
+                            f"or set but got {value.type()}",
+                            self.pos,
+                        )
                     for i in range(len(self.identifiers)):
                         environment.put(self.identifiers[i], vals[i])
                 result = self.block.evaluate(environment)
@@ -889,7 +910,14 @@ class NodeFor:
                     if val.isList():
                         vals = val.value
                     elif val.isSet():
-                        vals = val.value.sortedValues()
+                        vals = val.getSortedItems()
+                    else:
+                        raise CklRuntimeError(
+                            ValueString("ERROR"),
+                            "Destructuring in for loop expects list "
+                            f"or set but got {val.type()}",
+                            self.pos,
+                        )
                     for i in range(len(self.identifiers)):
                         environment.put(self.identifiers[i], vals[i])
                 result = self.block.evaluate(environment)
@@ -928,7 +956,14 @@ class NodeFor:
                     if val.isList():
                         vals = val.value
                     elif val.isSet():
-                        vals = val.value.sortedValues()
+                        vals = val.getSortedItems()
+                    else:
+                        raise CklRuntimeError(
+                            ValueString("ERROR"),
+                            "Destructuring in for loop expects list "
+                            f"or set but got {val.type()}",
+                            self.pos,
+                        )
                     for i in range(len(self.identifiers)):
                         environment.put(self.identifiers[i], vals[i])
                 result = self.block.evaluate(environment)
